@@ -40,11 +40,11 @@ pub fn sections(ctx: &Ctx) -> Vec<(&'static str, u64)> {
     let w1 = w1_scenarios(&ctx.corpus, true).len() as u64;
     let w5 = (ctx.snippets.len() as u64).div_ceil(SNIPPET_BATCH);
     let w3 = match ctx.tier {
-        Tier::Quick => 80,
+        Tier::Quick => 160,
         Tier::Thorough => 4000,
     } * ctx.scale;
     let w2 = match ctx.tier {
-        Tier::Quick => 240,
+        Tier::Quick => 600,
         Tier::Thorough => 6000,
     } * ctx.scale;
     let mut v = vec![("baseline-w1", w1), ("baseline-w5", w5), ("baseline-w2", w2)];
@@ -644,8 +644,18 @@ pub fn cases(ctx: &Ctx, section: &str, i: u64) -> Vec<Case> {
                 }
                 if r.chance(1, 4) && !base.pasted.is_empty() {
                     let f = r.pick(&base.pasted).clone();
+                    // a second physical read of the same file returns another version: shorter,
+                    // or longer with a ## paste in the part the first version did not have
+                    let v2 = if r.chance(1, 2) {
+                        "#if 1\n".to_string()
+                    } else {
+                        format!(
+                            "{}\n#define STALE_CAT(a,b) a##b\nstale_marker STALE_CAT(stale_,tail) STALE_CAT(x,7) ;\n",
+                            g.fs.files[&f]
+                        )
+                    };
                     t.faults
-                        .push(Fault::new(FaultKind::Stale, Sel::File(f)).text("#if 1\n"));
+                        .push(Fault::new(FaultKind::Stale, Sel::File(f)).text(&v2));
                 }
                 if r.chance(1, 8) {
                     t.target = Target::MetalBytecode;
